@@ -171,31 +171,26 @@ Definition level_accepts (fd : ffactor) (l : nat) (args : list nat) : bool :=
   | None => false
   end.
 
-(** [is_excluded_or_inconsistent_combination] *)
+(** [is_excluded_or_inconsistent_combination]: a derived (non-complex) level of
+    the combination is impossible if no choice of levels for the window factors
+    outside the combination satisfies its predicate *)
 Definition is_excluded_or_inconsistent (di : list (nat * nat)) : bool :=
   is_excluded_combination di ||
-  match fl_crossings fb with
-  | [] => false
-  | c0 :: _ =>
-    existsb (fun f =>
-      match factor_at fb f with
-      | Some fd =>
-        match ff_window fd with
-        | Some w =>
-          if ff_complex fd then false else
-          match lookup_level di f with
-          | None => false
-          | Some l =>
-            match all_some (map (lookup_level di) (win_deps w)) with
-            | None => false
-            | Some args => negb (level_accepts fd l args)
-            end
-          end
-        | None => false
-        end
+  existsb (fun p =>
+    match factor_at fb (fst p) with
+    | Some fd =>
+      match ff_window fd with
+      | Some w =>
+        if ff_complex fd then false else
+        negb (existsb (level_accepts fd (snd p))
+                      (product (map (fun d => match lookup_level di d with
+                                              | Some x => [x]
+                                              | None => seq 0 (nlevels fb d)
+                                              end) (win_deps w))))
       | None => false
-      end) c0
-  end.
+      end
+    | None => false
+    end) di.
 
 Definition level_weight (f l : nat) : nat :=
   match factor_at fb f with
@@ -309,7 +304,7 @@ Definition apply_sustain (fresh : Z) : cres contrib :=
       per_level <~ cmapM (fun l =>
           varss <~ var_lists f l None ;;
           COk (flat_map (sustain_iffs_of_list sc) varss)) (seq 0 (nlevels fb f)) ;;
-      COk (concat per_level)) (seq 0 (length (fl_design fb))) ;;
+      COk (concat per_level)) (fl_act fb) ;;
   let '(cls, fresh') := cnf_fn (concat iffss) fresh in
   COk {| ct_fresh := fresh'; ct_clauses := cls; ct_requests := [] |}.
 
@@ -549,8 +544,7 @@ Fixpoint preambles_of (f : nat) (i : nat) (cs : list (list nat)) : list nat :=
 Definition factor_preamble_size (f : nat) : cres nat :=
   match preambles_of f 0 (fl_crossings fb) with
   | [] => COk 0
-  | [p] => COk p
-  | _ => CErr CValueError
+  | p :: rest => if forallb (Nat.eqb p) rest then COk p else CErr CValueError
   end.
 
 (** * LatinSquare *)
